@@ -1,6 +1,7 @@
 """Binding A for spec/IkeTimers.tla: behaviours of the timer model are executed on the real code under the virtual clock;
 the sweep is the timer part of main_loop, verbatim in structure (world.World.sweep)."""
 import collections
+import os
 import multiprocessing
 
 import common
@@ -96,7 +97,7 @@ class TimerWorld:
 
     def project(self):
         w, sa = self.w, self.sa
-        clip = lambda x: -1 if x < -1 else int(round(x))
+        clip = lambda x: -1 if x < -1 else (10 ** 9 if x != x or x > 10 ** 9 else int(round(x)))     # (a timer that is never due: reported, not a crash)
         if not self.alive():
             return {'st': 'DELETED', 'kern': len(w.kernel['A'].sad) > 0}
         name = sa.state.name
@@ -290,6 +291,22 @@ def _sim_slice(args):
     return out
 
 
+def _workers_that_fit(nproc):
+    """The forked workers share the dumped graph copy-on-write, but reading Python objects writes their reference counts: a worker ends up with a private copy
+    of most of what it touches (measured: about 0.6 of the parent's resident size each, 53 GB for 16 workers on the 4.7 M-state graph).  The pool is sized so
+    that this fits into the memory that is available now; the garbage collector is told not to walk (and thereby dirty) the graph in the children."""
+    import gc
+    try:
+        rss = int(open('/proc/self/statm').read().split()[1]) * os.sysconf('SC_PAGE_SIZE')
+        avail = next(int(l.split()[1]) * 1024 for l in open('/proc/meminfo') if l.startswith('MemAvailable:'))
+    except (OSError, StopIteration, ValueError):
+        return nproc
+    gc.freeze()
+    if rss < (1 << 30):
+        return nproc
+    return max(2, min(nproc, int(avail * 0.8 / (0.8 * rss))))
+
+
 def run_config(name, c, invariants, properties, limit=None, seed=0, nproc=None, simulate=None):
     """TLC (exhaustive) + dump + replay of every behaviour of the path cover. Returns (TlcResult, graph, totals)."""
     global _G, _P, _C
@@ -325,6 +342,7 @@ def run_config(name, c, invariants, properties, limit=None, seed=0, nproc=None, 
     chunk = max(1, (len(paths) + nproc * 4 - 1) // (nproc * 4))
     jobs = [(lo, min(lo + chunk, len(paths))) for lo in range(0, len(paths), chunk)]
     tot = {'behaviours': 0, 'steps': 0, 'mismatches': [], 'actions': collections.Counter(), 'paths': len(paths)}
+    nproc = _workers_that_fit(nproc)
     with multiprocessing.get_context('fork').Pool(nproc) as pool:
         for r in pool.imap_unordered(_slice, jobs):
             tot['behaviours'] += r['behaviours']
